@@ -56,19 +56,50 @@ def tree_to_abi(v, t):
     return tuple(tree_to_abi(x, ft) for x, (_, ft) in zip(v, t[2]))
 
 
+def is_dyn(t):
+    if t[0] == "darr":
+        return True
+    if t[0] == "sarr":
+        return is_dyn(t[1])
+    if t[0] == "struct":
+        return any(is_dyn(ft) for _, ft in t[2])
+    return False
+
+
+def enc_tuple(vals, tys):
+    """ABI head/tail encoding; primitive leaves are raw words (may be out of range on purpose)"""
+    heads, tails = [], []
+    head_len = sum(32 if is_dyn(t) else 32 * static_words(t) for t in tys)
+    for v, t in zip(vals, tys):
+        if is_dyn(t):
+            heads.append((head_len + sum(len(x) for x in tails)).to_bytes(32, "big"))
+            tails.append(enc_val(v, t))
+        else:
+            heads.append(enc_val(v, t))
+    return b"".join(heads) + b"".join(tails)
+
+
+def static_words(t):
+    if is_prim(t):
+        return 1
+    if t[0] == "sarr":
+        return t[2] * static_words(t[1])
+    return sum(static_words(ft) for _, ft in t[2])
+
+
+def enc_val(v, t):
+    if is_prim(t):
+        return (int(v) % W).to_bytes(32, "big")
+    if t[0] == "sarr":
+        return enc_tuple(v, [t[1]] * t[2])
+    if t[0] == "darr":
+        return len(v).to_bytes(32, "big") + enc_tuple(v, [t[1]] * len(v))
+    return enc_tuple(v, [ft for _, ft in t[2]])
+
+
 def calldata(fun, call):
     sel = keccak(fun.abi_sig().encode())[:4]
-    if all(is_prim(t) for _, t in fun.params):
-        return sel + b"".join((a % W).to_bytes(32, "big") for a in call.args)
-    tys = [ty_abi(t) for _, t in fun.params]
-    vals = []
-    for a, (_, t) in zip(call.args, fun.params):
-        if is_prim(t) and t[0] == "int" and t[2] and a >= W // 2:
-            a -= W
-        if t[0] == "bool":
-            a = bool(a)
-        vals.append(tree_to_abi(a, t))
-    return sel + eth_abi.encode(tys, vals)
+    return sel + enc_tuple(call.args, [t for _, t in fun.params])
 
 
 def call_coq(prog, call):
@@ -129,6 +160,9 @@ def p_event(c):
 def parse_run(zs):
     """-> (results, final_storage); result = ('ok', value, events) | ('revert',) | ('error', code)"""
     c = Cur(zs)
+    wf = c.next()
+    if wf != 1:
+        raise ValueError("generated program is not well-formed (wf_prog = false): call graph not ordered")
     res = []
     for _ in range(c.next()):
         st = c.next()
@@ -236,7 +270,7 @@ def observe(prog, cfg, calls, src=None):
     return res, d.raw_storage()
 
 
-def compare(prog, calls, model, obs):
+def compare(prog, calls, model, obs, unordered=()):
     """model = (results, final) from parse_run; obs from observe.  Returns None or a description
     (first difference) with the source-level rule violated."""
     mres, mfin = model
@@ -256,7 +290,10 @@ def compare(prog, calls, model, obs):
         if exp != out:
             return {"call": i, "what": "return-data", "expected": exp.hex(), "observed": out.hex()}
         elogs = expected_logs(prog, m[2])
-        if elogs != [(tuple(t), d) for t, d in logs]:
+        olog = [(tuple(t), d) for t, d in logs]
+        if i in unordered:   # documented-unspecified order (builtin / log arguments): exactly-once only
+            elogs, olog = sorted(elogs), sorted(olog)
+        if elogs != olog:
             return {"call": i, "what": "logs", "expected": [(t[0].hex()[:8], d.hex()) for t, d in elogs],
                     "observed": [([x.hex()[:8] for x in t], d.hex()) for t, d in logs]}
     for (name, t), v in zip(prog.sto, mfin):
